@@ -62,6 +62,8 @@ type sim struct {
 	parkCh         chan struct{}
 	maxAppliedEver uint64
 	unknown        map[string]int
+	hllTried       map[string]int
+	hllAcked       map[string]int
 }
 
 func pick(t *core.Tape, vals ...int) int { return vals[t.Choose(len(vals))] }
@@ -75,10 +77,23 @@ type parked struct {
 	release  func()
 	isParked func() bool
 	since    int
+	replay   bool // armed before a restart (slow replay)
+}
+
+func (p *parked) maxEvents() int {
+	if p.replay {
+		return 150
+	}
+	return 40
 }
 
 var parkPoints = []string{"raft.beforePersist", "raft.afterPublish", "raft.afterPersist", "raft.beforeAppend", "raft.beforeAdvance",
-	"apply.beforeApplyAll", "apply.afterApplyAll", "apply.beforeTriggerSnapshot", "snap.beforeSaveSnap", "snap.beforeSync", "snap.beforeCompact"}
+	"apply.beforeApplyAll", "apply.afterApplyAll", "apply.beforeTriggerSnapshot", "snap.beforeSaveSnap", "snap.beforeSync", "snap.beforeCompact",
+	"apply.beforeEntry"}
+
+// points a restarting machine may be held at while it replays its log (a slow
+// replay: ticks and messages keep arriving)
+var replayParkPoints = []string{"apply.beforeEntry", "apply.beforeEntry", "apply.beforeApplyAll", "apply.afterApplyAll", "raft.afterPublish", "raft.beforeAdvance"}
 
 func (s *sim) releasePark(why string) {
 	if s.park != nil {
@@ -171,7 +186,7 @@ func drawCfg(c *core.RunCtx) cfg {
 }
 
 func Run(c *core.RunCtx) {
-	s := &sim{c: c, t: c.Tape, blocked: map[[2]int]bool{}, unknown: map[string]int{}}
+	s := &sim{c: c, t: c.Tape, blocked: map[[2]int]bool{}, unknown: map[string]int{}, hllTried: map[string]int{}, hllAcked: map[string]int{}}
 	s.cfg = drawCfg(c)
 	raft.VerifSeedGlobalRand(int64(c.Tape.U32()))
 	c.Log("cfg", "%+v", s.cfg)
@@ -263,7 +278,7 @@ func (s *sim) bubble() (final []lin.Op, mismatch string) {
 	c, t, g := s.c, s.t, s.cfg
 	cl := nodeh.New(c, nodeh.Options{Machines: g.machines, Partitions: 1, Replicas: g.replicas, Engine: g.engine,
 		SnapCount: g.snapCount, SnapCatchup: g.catchup, KeepBackup: g.keepBackup, OptFsync: g.optFsync,
-		WalSegment: int64(pick(t, 256<<10, 64<<10, 1<<20))})
+		WalSegment: int64(pick(t, 256<<10, 64<<10, 1<<20, 8<<10, 16<<10))})
 	s.cl = cl
 	s.parkCh = make(chan struct{})
 	defer cl.Close()
@@ -303,7 +318,7 @@ func (s *sim) bubble() (final []lin.Op, mismatch string) {
 	ev := 0
 	for ; ev < g.events && len(c.Viol) == 0; ev++ {
 		cl.Clock = int64(ev)
-		if s.park != nil && ev-s.park.since > 40 {
+		if s.park != nil && ev-s.park.since > s.park.maxEvents() {
 			s.releasePark("timeout")
 		}
 		s.event(t.Weighted(w))
@@ -411,7 +426,9 @@ func (s *sim) bubble() (final []lin.Op, mismatch string) {
 		if p != nil {
 			p.op.Known = false
 			p.op.Ret = lin.Inf
-			s.hist = append(s.hist, p.op)
+			if p.op.Args[0] != "pfadd" {
+				s.hist = append(s.hist, p.op)
+			}
 			s.pend[i] = nil
 		}
 	}
@@ -428,6 +445,20 @@ func (s *sim) bubble() (final []lin.Op, mismatch string) {
 		final = append(final, lin.Op{Client: 99, Args: rd, Call: call, Ret: ret, Reply: r, Known: true, Note: "settle-read"})
 		c.Log("final", "%v -> %s", rd, nodeh.Fmt(r))
 	}
+	for _, k := range hllKeys {
+		r, ok := cl.Do(cl.M[l], toCmd([]string{"pfcount", k}), 100)
+		n, isInt := r.(int64)
+		if !ok || !isInt {
+			c.Violate(orProp(c, "C04"), "final-read-failed", "", "settle-time PFCOUNT %s on the leader failed: %v", k, nodeh.Fmt(r))
+			return
+		}
+		a, tr := int64(s.hllAcked[k]), int64(s.hllTried[k])
+		c.Log("final", "pfcount %s -> %d (acked %d, tried %d)", k, n, a, tr)
+		if n < a-a/10 || n > tr+tr/10 {
+			c.Violate(orProp(c, "C04"), "hll-count", "", "PFCOUNT %s = %d after settling, but %d PFADDs of distinct elements were acknowledged and %d attempted", k, n, a, tr)
+			return
+		}
+	}
 	// every replica must hold the same data
 	var dumps []string
 	for _, m := range cl.M {
@@ -435,6 +466,9 @@ func (s *sim) bubble() (final []lin.Op, mismatch string) {
 		for _, rd := range finalReads() {
 			r := directRead(m, rd)
 			d += fmt.Sprintf("%v=%s;", rd[:2], nodeh.Fmt(r))
+		}
+		for _, k := range hllKeys {
+			d += fmt.Sprintf("[pfcount %s]=%s;", k, nodeh.Fmt(directRead(m, []string{"pfcount", k})))
 		}
 		dumps = append(dumps, d)
 	}
@@ -532,6 +566,9 @@ func (s *sim) event(kind int) {
 			return
 		}
 		op := lin.Op{Client: ci, Args: args, Call: s.next()}
+		if args[0] == "pfadd" {
+			s.hllTried[args[1]]++
+		}
 		// ground truth for known finding "stale-precheck": the serving replica
 		// has not applied everything that was acknowledged before this call
 		if precheckCmd(args[0]) {
@@ -551,6 +588,10 @@ func (s *sim) event(kind int) {
 			return
 		}
 		m := ups[t.Choose(len(ups))]
+		if s.park != nil && s.park.replay && cl.M[s.park.machine].Up && t.Bool(700) {
+			// time passes for the machine whose replay is slow, too
+			m = cl.M[s.park.machine]
+		}
 		c.Log("tick", "m%d", m.Idx)
 		cl.Tick(m)
 		// simulated time flows with ticks
@@ -580,6 +621,17 @@ func (s *sim) event(kind int) {
 				continue
 			}
 			if !m.Up {
+				if s.park == nil && t.Bool(250) {
+					// a slow replay: one goroutine of the restarting process is held
+					// at a point while ticks and messages keep arriving
+					name := replayParkPoints[t.Choose(len(replayParkPoints))]
+					skip := t.Choose(4)
+					rel, isP := cl.ArmNth(name, 0, m.Idx, skip)
+					s.park = &parked{machine: m.Idx, name: name, release: rel, isParked: isP, since: int(cl.Clock), replay: true}
+					s.releases = append(s.releases, rel)
+					c.Fault("park_during_replay")
+					c.Log("park", "m%d %s skip=%d (restart)", m.Idx, name, skip)
+				}
 				c.Log("restart", "m%d", m.Idx)
 				if err := cl.Restart(m); err != nil {
 					c.Violate(orProp(c, "C06"), "restart-failed", "", "machine %d does not come back on its directory: %v", m.Idx, err)
@@ -763,8 +815,10 @@ func (s *sim) poll() {
 		if p.call.Dead {
 			p.op.Known = false
 			p.op.Ret = lin.Inf
-			s.unknown[model.TypeOf(p.op.Args[0])+"|"+p.op.Args[1]]++
-			s.hist = append(s.hist, p.op)
+			if p.op.Args[0] != "pfadd" {
+				s.unknown[model.TypeOf(p.op.Args[0])+"|"+p.op.Args[1]]++
+				s.hist = append(s.hist, p.op)
+			}
 			s.pend[i] = nil
 			s.c.Log("lost", "c%d %v", i, p.op.Args)
 			continue
@@ -791,8 +845,13 @@ func (s *sim) poll() {
 			p.op.Reply = r
 			s.acked++
 			s.c.Log("reply", "c%d %v -> %s", i, p.op.Args, nodeh.Fmt(r))
+			if p.op.Args[0] == "pfadd" {
+				s.hllAcked[p.op.Args[1]]++
+			}
 		}
-		s.hist = append(s.hist, p.op)
+		if p.op.Args[0] != "pfadd" {
+			s.hist = append(s.hist, p.op)
+		}
 		s.pend[i] = nil
 	}
 }
